@@ -485,7 +485,7 @@ class ThreadPoolServer(Server):
                 # the queue with None fds
                 fd = self._active_connection_queue.get(True)
                 # fd may be None (case where we want to exit the blocking get to close the service)
-                if fd:
+                if fd is not None:
                     # serve the requests of this connection
                     self._serve_requests(fd)
             except Queue.Empty:
